@@ -52,11 +52,6 @@ End AL.
 Lemma Neqb_spec a b : N.eqb a b = true <-> a = b.
 Proof. apply N.eqb_eq. Qed.
 
-(* [q] is the directory [p] or lies below it *)
-Definition tgt (p q : bytes) : bool := beqb q p || starts (p ++ [sep]) q.
-
-(* the kernel still has a watch with this descriptor *)
-Definition has_wd (k : kst) (wd : N) : bool := existsb (fun x => N.eqb (kw_wd x) wd) (k_watches k).
 
 Lemma has_wd_find k wd : has_wd k wd = false -> find (fun x => N.eqb (kw_wd x) wd) (k_watches k) = None.
 Proof.
@@ -148,15 +143,6 @@ Section Forget.
 End Forget.
 
 (* ================================================================== the loop head after a directory move-out *)
-Definition consistent (r : rstate) : Prop :=
-  forall wd q, alookup N.eqb wd (pfw r) = Some q -> alookup beqb q (wfp r) = Some wd.
-
-(* no descriptor is recorded with the path [p] or a path below it; recorded paths are normalised *)
-Definition clean (p : bytes) (r : rstate) : Prop :=
-  forall wd q, alookup N.eqb wd (pfw r) = Some q -> tgt p q = false /\ q <> [] /\ last_is_sep q = false.
-
-Definition pfw_norm (r : rstate) : Prop :=
-  forall wd q, alookup N.eqb wd (pfw r) = Some q -> q <> [] /\ last_is_sep q = false.
 
 Section MoveOut.
   Variable C : cfg.
@@ -234,11 +220,6 @@ Section NoPhantom.
   Hypothesis Hfix : c_fix_moveout C = true.
   Variable p : bytes.
 
-  Definition name_ok (n : bytes) : Prop := n = [] \/ valid_name n = true.
-
-  (* records that cannot (re-)introduce the name: everything except IN_MOVED_TO and IN_CREATE|IN_ISDIR *)
-  Definition quiet (e : kraw) : Prop :=
-    name_ok (k_name e) /\ is_moved_to (k_mask e) = false /\ is_directory (k_mask e) && is_create (k_mask e) = false.
 
   Lemma clean_path r wd a n : clean p r -> alookup N.eqb wd (pfw r) = Some a -> name_ok n ->
     under p (match n with [] => a | _ => join a n end) = false.
@@ -341,4 +322,112 @@ Proof.
   destruct Ha as [->|[ev [-> Hev]]].
   - exists new. auto.
   - exists (ev :: new). split; [now rewrite Hnew, <- app_assoc | constructor; assumption].
+Qed.
+
+(* ================================================================== on the Pipeline model, by computation *)
+(* the configuration of the phantom witness with the repair switched on (= the current code) *)
+Definition fx_cfg : pcfg :=
+  {| pc_reader := {| c_recursive := true; c_mask := WATCHDOG_ALL; c_root := ph_R; c_fix_ignored := true;
+                     c_fix_movein := true; c_fix_simulate := true; c_fix_moveout := true; c_faults := [] |};
+     pc_full := false; pc_filter := None; pc_delay := 5 |}.
+
+(* mkdir R/d; drain; mv R/d O/d; drain; touch O/d/g; drain - the history that refutes soundness of the pinned code -
+   is now sound: nothing is delivered for the touch, no event lies below /R/d, and d's watch is gone everywhere *)
+Lemma phantom_repaired :
+  exists s0 s obs, pinit fx_cfg ph_world = Some s0 /\ prun fx_cfg s0 ph_history [] = Done (s, obs) /\
+    sound_along fx_cfg s0 [] ph_history = true /\
+    forallb (fun ev => negb (under ph_Rd (ev_src ev))) (p_out s) = true /\
+    wfp (p_r s) = [(ph_R, 1%N)] /\ pfw (p_r s) = [(1%N, ph_R)] /\ pend (p_r s) = None /\
+    has_wd (p_k s) 2 = false.
+Proof.
+  eexists; eexists; eexists. split; [vm_compute; reflexivity|]. split; [vm_compute; reflexivity|].
+  repeat split; vm_compute; reflexivity.
+Qed.
+
+(* RESIDUAL HOLE of the repair: two directories leave the tree in one burst and the second is moved INTO the first
+   (mv R/a O/x; mv R/b O/x/b, read in one batch).  The kernel delivers the second IN_MOVED_TO through the first
+   directory's still existing watch; the reader has just forgotten that descriptor, so the record is skipped - but it
+   has already cancelled the pending candidate: R/b is never forgotten, and mkdir O/x/b/z is reported as
+   DirCreated(R/b/z). *)
+Definition gap_Ra : bytes := [47; 82; 47; 97]%N.                      (* /R/a *)
+Definition gap_Rb : bytes := [47; 82; 47; 98]%N.                      (* /R/b *)
+Definition gap_Ox : bytes := [47; 79; 47; 120]%N.                     (* /O/x *)
+Definition gap_Oxb : bytes := [47; 79; 47; 120; 47; 98]%N.            (* /O/x/b *)
+Definition gap_Oxbz : bytes := [47; 79; 47; 120; 47; 98; 47; 122]%N.  (* /O/x/b/z *)
+Definition gap_Rbz : bytes := [47; 82; 47; 98; 47; 122]%N.            (* /R/b/z - the stale in-tree path *)
+
+Definition gap_history : list action :=
+  [AOp (Mkdir gap_Ra); ARead 100; AEmit; AEmit; AOp (Mkdir gap_Rb); ARead 100; AEmit; AEmit;
+   AOp (Rename gap_Ra gap_Ox); AOp (Rename gap_Rb gap_Oxb); ARead 100; ATick 10; AEmit; AEmit; AEmit; AEmit;
+   AOp (Mkdir gap_Oxbz); ARead 100; AEmit; AEmit; AEmit].
+
+Lemma moveout_gap :
+  exists s0 s obs, pinit fx_cfg ph_world = Some s0 /\ prun fx_cfg s0 gap_history [] = Done (s, obs) /\
+    In (mk DirCreated gap_Rbz []) (p_out s) /\ fexists gap_Rbz (w_fs (p_world s)) = false /\
+    sound_along fx_cfg s0 [] gap_history = false.
+Proof.
+  eexists; eexists; eexists. split; [vm_compute; reflexivity|]. split; [vm_compute; reflexivity|].
+  split; [|split; vm_compute; reflexivity]. vm_compute. do 8 right. left. reflexivity.
+Qed.
+
+(* history-level soundness for the CURRENT code (all four repairs on) *)
+Definition sound_full_current : Prop :=
+  forall P w s0 h, pc_filter P = None -> c_mask (pc_reader P) = WATCHDOG_ALL ->
+    c_fix_ignored (pc_reader P) = true -> c_fix_movein (pc_reader P) = true -> c_fix_simulate (pc_reader P) = true ->
+    c_fix_moveout (pc_reader P) = true ->
+    pinit P w = Some s0 -> sound_along P s0 [] h = true.
+
+Lemma sound_full_current_false : ~ sound_full_current.
+Proof.
+  intros H. destruct moveout_gap as [s0 [s [obs [H1 [_ [_ [_ H2]]]]]]].
+  rewrite (H fx_cfg ph_world s0 gap_history) in H2; try reflexivity; [discriminate | exact H1].
+Qed.
+
+(* ---- a concrete state for the non-vacuity example: right after the IN_MOVED_FROM of /R/d has been read *)
+Lemma al_pair {V} (m : list (N * V)) a v : alookup N.eqb a m = Some v -> In (a, v) m.
+Proof.
+  induction m as [|[x w] m IH]; simpl; [discriminate|]. destruct (N.eqb a x) eqn:E; [|auto].
+  apply N.eqb_eq in E. intros H. inversion H; subst. auto.
+Qed.
+
+Lemma consistent_sound r :
+  forallb (fun x : N * bytes => match alookup beqb (snd x) (wfp r) with Some w => N.eqb w (fst x) | None => false end)
+          (pfw r) = true -> consistent r.
+Proof.
+  intros H wd q Hq. rewrite forallb_forall in H. specialize (H _ (al_pair _ _ _ Hq)). cbn [fst snd] in H.
+  destruct (alookup beqb q (wfp r)); [|discriminate]. apply N.eqb_eq in H. now subst.
+Qed.
+
+Lemma pfw_norm_sound r :
+  forallb (fun x : N * bytes => negb (is_nil (snd x)) && negb (last_is_sep (snd x))) (pfw r) = true -> pfw_norm r.
+Proof.
+  intros H wd q Hq. rewrite forallb_forall in H. specialize (H _ (al_pair _ _ _ Hq)). cbn [fst snd] in H.
+  apply andb_true_iff in H as [H1 H2]. apply negb_true_iff in H1, H2. split; [|exact H2].
+  intros ->. discriminate.
+Qed.
+
+Definition mo_state : option pstate :=
+  match pinit fx_cfg ph_world with
+  | Some s0 => match prun fx_cfg s0 [AOp (Mkdir ph_Rd); ARead 100; AEmit; AEmit; AOp (Rename ph_Rd ph_Od); ARead 100;
+                                     AOp (Touch ph_Odg)] [] with
+               | Done (s, _) => Some s
+               | Crash _ => None
+               end
+  | None => None
+  end.
+
+Lemma moveout_nonvacuous :
+  exists s e b, mo_state = Some s /\ k_queue (p_k s) = e :: b /\
+    pend (p_r s) = Some (1%N, ph_Rd) /\ consistent (p_r s) /\ pfw_norm (p_r s) /\
+    is_moved_to (k_mask e) && N.eqb (k_cookie e) 1 = false /\ Forall quiet (e :: b) /\ length b = 2%nat /\
+    alookup beqb ph_Rd (wfp (p_r s)) = Some 2%N /\ alookup N.eqb 2%N (pfw (p_r s)) = Some ph_Rd /\ has_wd (p_k s) 2 = true /\
+    exists r' k', read_batch (pc_reader fx_cfg) (w_fs (p_world s)) (p_r s, p_k s, []) (e :: b) = Done (r', k', []) /\
+                  wfp r' = [(ph_R, 1%N)] /\ has_wd k' 2 = false.
+Proof.
+  eexists; eexists; eexists. split; [vm_compute; reflexivity|]. split; [vm_compute; reflexivity|].
+  split; [vm_compute; reflexivity|]. split; [apply consistent_sound; vm_compute; reflexivity|].
+  split; [apply pfw_norm_sound; vm_compute; reflexivity|]. split; [vm_compute; reflexivity|].
+  split; [repeat constructor; try (right; vm_compute; reflexivity); vm_compute; reflexivity|].
+  split; [reflexivity|]. split; [vm_compute; reflexivity|]. split; [vm_compute; reflexivity|].
+  split; [vm_compute; reflexivity|]. eexists; eexists. split; [vm_compute; reflexivity|]. split; vm_compute; reflexivity.
 Qed.
